@@ -122,6 +122,28 @@ Section C15.
   Proof. exact (results_refine prep). Qed.
 End C15.
 
+(* FINDING (genuine defect, outside the sequential histories of the theorems
+   above; found by the harness's concurrent stream): the background re-preparer
+   (_reprepare_and_update_cache) reads the cache entry, awaits the preparer and
+   then stores the entry it had read.  If an offer of a newer version completes
+   in between, the cache goes back to the old version and spec: "lookups then
+   return the result for the most recently offered version" is false for that
+   interleaving.  [rp_begin]/[rp_end] are the two halves of the function. *)
+Theorem C15_reprepare_race_refuted :
+  exists (prep : key -> json -> nat -> presult) (cls : nat) (name : string) (spec1 spec2 : json),
+    let k := (cls, name) in
+    let m v := Meta (Some name) (Some v) true in
+    let s1 := fst (step prep (Offer cls (m "1") spec1 None) init) in
+    exists read p started s2,
+      rp_begin prep k s1 = Some (read, p, started, s2) /\
+      let s3 := fst (step prep (Offer cls (m "2") spec2 None) s2) in
+      (exists v, snd (step prep (Offer cls (m "2") spec2 None) s2) = RValue v /\
+                 option_map e_version (lookup k (cache s3)) = Some "2") /\
+      let s4 := rp_end k read p started s3 in
+      option_map e_version (lookup k (cache s4)) = Some "1" /\
+      option_map e_spec (lookup k (cache s4)) = Some spec1.
+Proof. exact reprepare_overwrites_newer_offer. Qed.
+
 (* non-vacuity: a preparer that succeeds on even invocations and fails on odd
    ones; versions go v1 -> v1 -> v2 (failure cached) -> v1 (prepared again),
    a stale delete is ignored, a delete by name removes *)
@@ -153,3 +175,4 @@ Print Assumptions C15_frame.
 Print Assumptions C15_keys_unique.
 Print Assumptions C15_refines_map.
 Print Assumptions C15_results_refine.
+Print Assumptions C15_reprepare_race_refuted.
